@@ -50,6 +50,11 @@ class Run:
         # "cluster-late": the writer is created while no dask client exists (no prep_client, shared variable never
         # set), the client becomes active afterwards and the worker copies do their writes then
         self.late = mode == "cluster-late"
+        # "cluster-reuse": an earlier upload to the same (bucket, key) on the same cluster started writing and was
+        # abandoned before finalise (cleanup_client never ran); the upload under test comes after it
+        self.reuse = mode == "cluster-reuse"
+        self.stale = None                    # what the earlier upload left in the shared variable
+        self.prior_calls: list = []
         mode = "local" if mode.startswith("local") else ("cluster" if mode.startswith("cluster") else mode)
         self.registered = False              # the registry holds a lock at the end
         self.mode = mode
@@ -122,9 +127,16 @@ def execute(mode: str, threads, schedule=(), complete=True, chooser=None, glue=N
     class FakeS3:
         def __init__(self):
             self.n = 0
+            self.n_old = 0
+            self.old_phase = False      # calls of the earlier, abandoned upload
 
         def create_multipart_upload(self, **kw):
             sched.event("call:create")
+            if self.old_phase:
+                self.n_old += 1
+                uid = f"old-upload-{self.n_old}"
+                run.calls.append((sched.step_index(), sched.current(), "create", uid, kw))
+                return {"UploadId": uid}
             self.n += 1
             uid = f"upload-{self.n}"
             run.calls.append((sched.step_index(), sched.current(), "create", uid, kw))
@@ -274,8 +286,19 @@ def execute(mode: str, threads, schedule=(), complete=True, chooser=None, glue=N
     S3._state = HookedState() if run.fresh else HookedState({"mpu_lock": new_lock()})   # pylint: disable=protected-access
     S3.Lock = new_lock
     try:
-        mpu = HookedMPU("bucket", "some/key.tif")
         kw = {"ContentType": "image/tiff"}
+        if run.reuse:
+            # the earlier upload: its own MultiPartUpload + writer, one worker copy writes one part, nobody finalises
+            s3.old_phase = True
+            mpu0 = HookedMPU("bucket", "some/key.tif")
+            w0 = copy.copy(mpu0.writer(kw))
+            w0.mpu = copy.copy(mpu0)
+            w0(1, part_data(1))
+            s3.old_phase = False
+            run.prior_calls = list(run.calls)
+            run.calls.clear()
+            run.stale = next(iter(client.vars.values()), None)
+        mpu = HookedMPU("bucket", "some/key.tif")
         writer = mpu.writer(kw)          # the real factory: prep_client() when a client exists
         active["on"] = True              # (late mode: the client appears only now)
         writers = {}
@@ -425,7 +448,8 @@ def case_text(run: Run, packed=True) -> str:
         return (f"{head} {cbool(not run.fresh)} {cprogs('local', run.threads)} {steps} {ccalls} {outs} {cz(ncreate)} "
                 f"{cbool(run.locked)} {cbool(run.registered)}")
     uids = clist([uid_num(u) for u in run.uids])
-    return (f"{'CClusterP' if packed else 'CCluster'} {cprogs('cluster', run.threads)} {steps} {ccalls} {outs} "
+    stale = "None" if run.stale is None else f"(Some {cz(uid_num(run.stale))})"
+    return (f"{'CClusterP' if packed else 'CCluster'} {stale} {cprogs('cluster', run.threads)} {steps} {ccalls} {outs} "
             f"{uids} {cbool(run.deleted_at is not None)}")
 
 
@@ -504,6 +528,8 @@ CONFIGS = {"local-2w": ("local", LOCAL_2W), "local-2w+f": ("local", LOCAL_2WF), 
            "local-seq": ("local", LOCAL_SEQ), "cluster-2w-2workers": ("cluster", CL_2W_DIFF),
            "cluster-2w-1worker": ("cluster", CL_2W_SAME), "cluster-2w+f": ("cluster", CL_2WF),
            "cluster-3w": ("cluster", CL_3W), "cluster-seq": ("cluster", CL_SEQ),
+           "reuse-2w": ("cluster-reuse", CL_2W_DIFF), "reuse-2w+f": ("cluster-reuse", CL_2WF),
+           "reuse-seq": ("cluster-reuse", CL_SEQ),
            "late-2w": ("cluster-late", CL_2W_DIFF), "late-2w+f": ("cluster-late", CL_2WF),
            "late-seq": ("cluster-late", CL_SEQ),
            "fresh-2w": ("local-fresh", LOCAL_2W), "fresh-3w": ("local-fresh", LOCAL_3W),
@@ -546,6 +572,11 @@ def plan(tier):
         ("cluster-3w", "glued", 600 if q else 8000),
         ("cluster-3w", "random", 200 if q else 1500),
         ("cluster-seq", "random", 150 if q else 1500),
+        ("reuse-2w", "glued", None),
+        ("reuse-2w", "glued-uid", None),
+        ("reuse-2w+f", "glued", 300 if q else 5000),
+        ("reuse-2w+f", "random", 150 if q else 1500),
+        ("reuse-seq", "random", 100 if q else 1500),
         ("late-2w", "glued", None),
         ("late-2w", "glued-uid", None),
         ("late-2w+f", "glued", 300 if q else 5000),
@@ -824,9 +855,19 @@ DEFAULTS = {"min_write_sz": 4096, "max_write_sz": 5 * (1 << 30), "min_part": 1, 
 
 
 def limit_configs(rng, tier):
-    vals = {"min_write_sz": [1, 512, 4096, 1 << 20], "max_write_sz": [4097, 1 << 21, 1 << 33, 5 * (1 << 30)],
-            "min_part": [1, 2, 10], "max_part": [3, 11, 10_000, 50_000]}
+    import numpy as np
+    vals = {"min_write_sz": [0, 1, 512, 4096, 1 << 20, np.int64(0), np.int32(4097)],
+            "max_write_sz": [0, 1, 1024, 4097, 1 << 21, 1 << 33, 5 * (1 << 30), np.int64(1 << 21)],
+            "min_part": [0, 1, 2, 10, np.int64(0), np.uint16(3)], "max_part": [0, 1, 3, 11, 10_000, 50_000, np.int64(11)]}
     out = []
+    # falsy / boundary values (0, 1, numpy zeros) for every subset of the four limits: a configured 0
+    # (zero-based part numbers, no minimum write size) is a value, not "unset"
+    for r in range(1, 5):
+        for keys in itertools.combinations(LIMIT_KEYS, r):
+            for v in (0, 1, np.int64(0)):
+                out.append({k: v for k in keys})
+    out.append({"min_write_sz": 0, "max_write_sz": 1024})
+    out.append({"min_part": 0, "max_part": 9_999})
     for r in range(0, 5):
         for keys in itertools.combinations(LIMIT_KEYS, r):
             choices = [vals[k] for k in keys]
@@ -1022,9 +1063,13 @@ def run(out, tier, scratch):
     for kw in limit_configs(core.rng("c18-limits"), tier):
         ok, detail = p_limits(kw)
         out.count(f"limits:{len([k for k in kw if k in LIMIT_KEYS])}-configured")
-        out.case(("limits", tuple(kw.items())), True)
+        out.case(("limits", tuple((k, int(v), type(v).__name__) for k, v in kw.items())), True)
+        out.count("limits:has-zero" if any(int(v) == 0 for v in kw.values()) else "limits:no-zero")
         if not ok:
-            violate("c18:limits", detail, {"predicate": "limits", "kwargs": kw, "observed": detail,
+            violate("c18:limits", detail, {"predicate": "limits", "kwargs": {k: int(v) for k, v in kw.items()},
+                                           "numpy_typed": {k: type(v).__name__ for k, v in kw.items()
+                                                           if type(v).__module__ == "numpy"},
+                                           "observed": detail,
                                            "expected": "every accessor reports its configured value (default if absent)"})
         from odc.geo.cog._mpu_fs import MPUFileSink
         s = MPUFileSink("/nonexistent/x.bin", **kw)
@@ -1066,7 +1111,8 @@ def run(out, tier, scratch):
                 violate(f"c18:corpus:{rp['_file']}", f"{rp['_file']}: {detail}", {k: v for k, v in rp.items() if k != "_file"})
     # (the history "writer created before the client exists" runs once through the corpus witness r3_late_client)
     rc = c18_cluster.real_cluster_check(rounds=3 if tier == "quick" else 10, nwriters=6,
-                                        late_rounds=0 if tier == "quick" else 2)
+                                        late_rounds=0 if tier == "quick" else 2,
+                                        reuse_rounds=1 if tier == "quick" else 3)
     out.case(("real_cluster", rc["status"]), True)
     out.count("real-cluster:" + rc["status"])
     if rc["status"] == "skipped":
@@ -1134,7 +1180,11 @@ def replay_one(rp, scratch=None):
         finally:
             shutil.rmtree(base, ignore_errors=True)
     if kind == "limits":
-        return p_limits(rp["kwargs"])
+        import numpy as np
+        kw = dict(rp["kwargs"])
+        for k, tname in rp.get("numpy_typed", {}).items():
+            kw[k] = getattr(np, tname)(kw[k])
+        return p_limits(kw)
     if kind == "s3limits":
         return p_s3_limits()[:2]
     if kind == "local_lock":
@@ -1142,7 +1192,7 @@ def replay_one(rp, scratch=None):
     if kind == "real_cluster":
         from vlib import c18_cluster
         rc = c18_cluster.real_cluster_check(rounds=rp.get("rounds", 1), nwriters=rp.get("nwriters", 4),
-                                            late_rounds=rp.get("late_rounds", 0))
+                                            late_rounds=rp.get("late_rounds", 0), reuse_rounds=rp.get("reuse_rounds", 0))
         return rc["status"] != "fail", (rc["detail"] or f"{rc['status']}: {rc['runs']}")
     if kind == "static_contract":
         from vlib import c18_cluster
